@@ -3,6 +3,7 @@ package profiles
 import (
 	"fmt"
 	"testing"
+	"verif.local/sim/cluster"
 
 	"verif.local/sim/harness"
 	"verif.local/sim/simhook"
@@ -143,6 +144,39 @@ func (p c02) Gen(r *simhook.Rand, tier string, idx int) harness.Scenario {
 		if r.Chance(1, 8) {
 			sc.Conns[i].SlowRead = 1
 		}
+	}
+	if r.Chance(1, 14) {
+		// class "ask-target-reset": a slot is half migrated (slow migration); a pipeline of reads of keys that do not
+		// exist is answered ASK by the source, so the proxy sends ASKING + request pairs to the target - whose connection
+		// is reset again and again meanwhile. Every request of every pair is answered exactly once.
+		sc.Class = "ask-target-reset"
+		sc.Env = world.RedisCfg{Masters: 2}
+		sc.SlackMs = []int{0, 1}[r.Intn(2)]
+		sc.MigStepMs = 7000
+		tag := fmt.Sprintf("at%c", 'a'+rune(r.Intn(26)))
+		slot := cluster.Slot([]byte("{" + tag + "}"))
+		src := slot / (cluster.NumSlots / 2)
+		if src > 1 {
+			src = 1
+		}
+		dst := 1 - src
+		for i := 0; i < 6; i++ {
+			sc.Env.Preload = append(sc.Env.Preload, world.KV{K: world.Bin(fmt.Sprintf("{%s}:%d", tag, i)), V: world.Bin(uniqueVal("pre", i, 8))})
+		}
+		sc.Conns = nil
+		for ci := 0; ci < 1+r.Intn(3); ci++ {
+			cs := ConnScript{Name: fmt.Sprintf("c%d", ci)}
+			for i := 0; i < 10+r.Intn(40); i++ {
+				cs.Reqs = append(cs.Reqs, world.Request{Args: world.Bins("GET", fmt.Sprintf("{%s}:absent%d-%d", tag, ci, i))})
+			}
+			cs.Reqs[0].Gap = 20000 // the migration has set importing/migrating by then
+			sc.Conns = append(sc.Conns, cs)
+		}
+		sc.Faults = []Fault{{Kind: "mig-start", From: slot, Dst: dst, OnCmd: "cluster", Nth: 1}}
+		for i := 0; i < 2+r.Intn(4); i++ {
+			sc.Faults = append(sc.Faults, Fault{Kind: []string{"rst", "fin"}[r.Intn(2)], Node: dst, AfterSend: r.Intn(400)})
+		}
+		return sc
 	}
 	if r.Chance(1, 20) {
 		// class "wide": one request that fans out into more sub-requests than the 1024-entry queues of a backend
